@@ -20,6 +20,10 @@ class Unknown(Exception):
     pass
 
 
+class Tolerance(Unknown):
+    """np.isclose/np.allclose used where the interval definition asks for an exact comparison: not an order relation at all."""
+
+
 class Roles(object):
     """Which Rat keys denote the lower bound, the upper bound and the boolean flags."""
 
@@ -109,6 +113,8 @@ def eval_bool(r, roles, pos):
             if res is None:
                 raise Unknown("equality not between the subject and a bound: %s" % r)
         return res if f == "cmp_eq" else not res
+    if f in ("call:numpy.isclose", "call:numpy.allclose"):
+        raise Tolerance("tolerance comparison %s is not an order relation" % f[5:])
     raise Unknown("unsupported boolean form %s" % r)
 
 
